@@ -14,15 +14,15 @@ type Model struct {
 }
 
 var (
-	model     *Model
-	cursor    = map[string]int{}
-	decPos    int
-	clockPos  int
-	frozen    bool
-	lastClock [2]int64
-	Failed    []string
-	Reached   = map[string]bool{}
-	budgets   = map[string]int{}
+	model        *Model
+	cursor       = map[string]int{}
+	decPos       int
+	clockPos     int
+	frozen       bool
+	lastClock    [2]int64
+	Failed       []string
+	Reached      = map[string]bool{}
+	budgets      = map[string]int{}
 	OnAssumeFail func()
 )
 
@@ -115,8 +115,8 @@ func assertNative(label string, c bool) {
 	}
 }
 
-func reachNative(label string) { Reached[label] = true }
-func stopNative()              { panic("vx.Stop") }
+func reachNative(label string)  { Reached[label] = true }
+func stopNative()               { panic("vx.Stop") }
 func setBudget(d string, n int) { budgets[d] = n }
 
 func clockNow() (int64, int64) {
